@@ -38,7 +38,7 @@ pub const CORPUS: &[&str] = &[
     "2K4k/8/8/8/B1B5/1B1B4/B1B5/1B1B4 w - - 0 1",
 ];
 
-pub const SOURCES: [&str; 17] = [
+pub const SOURCES: [&str; 19] = [
     "sparse",
     "dense",
     "playout",
@@ -56,6 +56,8 @@ pub const SOURCES: [&str; 17] = [
     "shuffled_camps",
     "few_moves",
     "no_moves_search",
+    "crowded_area",
+    "longest_fen",
 ];
 
 /// Positions with (near-)maximal numbers of semilegal moves found by earlier maximisation runs.
@@ -586,10 +588,18 @@ fn src_mate_family(cur: &mut Cursor, p: &mut RefPos) {
 
 fn src_many_queens(cur: &mut Cursor, p: &mut RefPos) {
     place_kings(cur, p);
-    let n = 6 + cur.below(10);
+    // one favoured kind (mostly queens) so that ten and more men of a kind occur; sometimes pawns about to promote
+    let fav = cur.pick(&[Pc::Q, Pc::Q, Pc::Q, Pc::Q, Pc::N, Pc::B, Pc::R]);
+    let pawns = if cur.chance(80) { 1 + cur.below(2) } else { 0 };
+    let n = (6 + cur.below(10)).min(15 - pawns);
     for _ in 0..n {
-        let pc = cur.pick(&[Pc::Q, Pc::Q, Pc::Q, Pc::Q, Pc::R, Pc::B, Pc::N]);
+        let pc = cur.pick(&[fav, fav, fav, fav, fav, Pc::R, Pc::B, Pc::N]);
         put_random(cur, p, (Col::W, pc));
+    }
+    for _ in 0..pawns {
+        if let Some(s) = free_sq(cur, p, |s| rank_of(s) == 6) {
+            p.b[s as usize] = Some((Col::W, Pc::P));
+        }
     }
     let n = cur.below(4);
     for _ in 0..n {
@@ -597,6 +607,92 @@ fn src_many_queens(cur: &mut Cursor, p: &mut RefPos) {
         put_random(cur, p, (Col::B, pc));
     }
     p.side = Col::W;
+}
+
+/// A 5x5 area (clipped at the edges) around some square filled almost or entirely with men of both colours, a few men elsewhere:
+/// squares whose whole neighbourhood is occupied, sliders standing shoulder to shoulder, blocked knights and pawns.
+fn src_crowded_area(cur: &mut Cursor, p: &mut RefPos) {
+    place_kings(cur, p);
+    let c = cur.below(64) as Sq;
+    let (cf, cr) = (file_of(c), rank_of(c));
+    let fill = 200 + cur.below(57) as u16;
+    let centre_filled = cur.bool();
+    let mut counts = [1usize; 2];
+    for s in 0..64u8 {
+        let d = (file_of(s) - cf).abs().max((rank_of(s) - cr).abs());
+        if d > 2 || p.b[s as usize].is_some() || (s == c && !centre_filled) || (s != c && !cur.chance(fill)) {
+            continue;
+        }
+        let mut col = if cur.bool() { Col::W } else { Col::B };
+        if counts[col as usize] >= 16 {
+            col = col.inv();
+        }
+        if counts[col as usize] >= 16 {
+            continue;
+        }
+        let pc = if pawn_ok(s) { cur.pick(&[Pc::P, Pc::P, Pc::N, Pc::B, Pc::R, Pc::Q, Pc::N, Pc::B, Pc::R, Pc::Q]) } else { cur.pick(&[Pc::N, Pc::B, Pc::R, Pc::Q]) };
+        p.b[s as usize] = Some((col, pc));
+        counts[col as usize] += 1;
+    }
+    let n = cur.below(5);
+    for _ in 0..n {
+        let col = if cur.bool() { Col::W } else { Col::B };
+        if counts[col as usize] < 16 {
+            let pc = cur.pick(&WEIGHTED);
+            if put_random(cur, p, (col, pc)).is_some() {
+                counts[col as usize] += 1;
+            }
+        }
+    }
+}
+
+/// Positions whose FEN text is as long as it gets: 4 or 5 men on every rank with no two empty squares side by side
+/// (8 characters per rank, 71 for the placement field), up to 32 men, castling rights where the pattern allows them,
+/// multi-digit counters; white below, black above so that few men attack a king.
+fn src_longest_fen(cur: &mut Cursor, p: &mut RefPos) {
+    let mut placed = [0usize; 2];
+    let castle_ranks = cur.chance(120);
+    for rank in 0..8i8 {
+        // occupied files of this rank
+        let files: Vec<i8> = if castle_ranks && (rank == 0 || rank == 7) {
+            vec![0, 2, 4, 6, 7] // R1x1K1xR
+        } else {
+            match cur.below(6) {
+                0 | 1 => vec![0, 2, 4, 6],
+                2 | 3 => vec![1, 3, 5, 7],
+                4 => vec![0, 2, 4, 5, 7],
+                _ => vec![0, 1, 3, 5, 7],
+            }
+        };
+        let col = if rank < 4 { Col::W } else { Col::B };
+        for f in files {
+            if placed[col as usize] >= 16 {
+                break;
+            }
+            let s = mk_sq(f, rank).unwrap();
+            let home = rank == 0 || rank == 7;
+            let pc = if home && f == 4 {
+                Pc::K
+            } else if home && (f == 0 || f == 7) && castle_ranks {
+                Pc::R
+            } else if home {
+                cur.pick(&[Pc::N, Pc::B, Pc::N, Pc::B, Pc::R, Pc::Q])
+            } else {
+                cur.pick(&[Pc::P, Pc::P, Pc::P, Pc::N, Pc::B, Pc::R, Pc::Q])
+            };
+            p.b[s as usize] = Some((col, pc));
+            placed[col as usize] += 1;
+        }
+    }
+    // kings: on e1/e8 if the pattern put a man there, otherwise replace some man of the home rank
+    for (col, rank) in [(Col::W, 0i8), (Col::B, 7i8)] {
+        if p.king_sq(col).is_none() {
+            let cands: Vec<Sq> = (0..8i8).filter_map(|f| mk_sq(f, rank)).filter(|&s| p.b[s as usize].is_some()).collect();
+            let s = cands[cur.below(cands.len())];
+            p.b[s as usize] = Some((col, Pc::K));
+        }
+    }
+    p.castle = [true; 4];
 }
 
 fn src_corpus_mut(cur: &mut Cursor, p: &mut RefPos) {
@@ -1186,6 +1282,12 @@ pub fn gen_position_from(cur: &mut Cursor, sel: usize) -> (RefPos, &'static str)
             src_no_moves_search(cur, &mut p);
             own_side = true;
         }
+        17 => src_crowded_area(cur, &mut p),
+        18 => {
+            src_longest_fen(cur, &mut p);
+            p.side = if cur.bool() { Col::B } else { Col::W };
+            own_side = true;
+        }
         _ => {
             src_corpus_mut(cur, &mut p);
             keep_ep = true;
@@ -1207,6 +1309,10 @@ pub fn gen_position_from(cur: &mut Cursor, sel: usize) -> (RefPos, &'static str)
         if csel & 1 == 1 {
             p.full = gen_counter(cur);
         }
+    }
+    if sel == 18 && cur.bool() {
+        p.half = p.half.max(10_000 + (cur.u16() % 50_000));
+        p.full = p.full.max(10_000 + (cur.u16() % 50_000));
     }
     if cur.bool() {
         p = flip_colors(&p);
